@@ -699,3 +699,32 @@ def gen_twins(rng, kinds, occ=None, n_fill=None):
     texts = {pa: "\n".join(hdr + twin_function(kinds, occ, n_fill, 0)) + "\n",
              pb: "\n".join(hdr + twin_function(kinds, occ, n_fill, 1)) + "\n"}
     return texts, dict(kinds=list(kinds), occ=occ, n_fill=n_fill, a=pa, b=pb, start=3)
+
+
+# ------------------------------------------------------------------------------------------
+# twins on both sides of batch boundaries (C09): the batch loop compares a cross-batch pair as
+# (later, earlier), the unbatched and the LSH loops as (earlier, later).  For every kind one file each
+# with A (variant 0), B (its related-construct twin, variant 1) and C (a verbatim copy of A):
+# (A, B) has variant 0 first, (B, C) variant 1 first, (A, C) is a structurally identical pair.
+# layout "spread": all A, then all B, then all C (with >= 7 kinds every twin pair is more than a
+# batch apart for batch sizes <= 7); layout "adjacent": A, B, C of a kind in a row (with no filler in
+# front and batch size 3 every twin pair shares a batch; other batch sizes cut through the rows).
+# ------------------------------------------------------------------------------------------
+def gen_twin_batches(rng, kinds, layout, fillers=0):
+    """Returns (files in analysis order, meta): meta[kind] = {"A": path, "B": path, "C": path, "occ", "n_fill", "start"}."""
+    rows, meta = [], {}
+    for k in kinds:
+        occ, nf = rng.randint(1, 2), rng.randint(3, 7)
+        name = "export_%s" % k
+        hdr = ["import os", ""]
+        mk = lambda v: "\n".join(hdr + twin_function([k], occ, nf, v, name)) + "\n"
+        sub = rng.choice(["", "pkg/"])
+        row = {"A": ("%sa_%s.py" % (sub, k), mk(0)), "B": ("tw/b_%s.py" % k, mk(1)), "C": ("copy/c_%s.py" % k, mk(0))}
+        rows.append(row)
+        meta[k] = dict(occ=occ, n_fill=nf, start=3, **{r: row[r][0] for r in "ABC"})
+    if layout == "spread":
+        files = [r[x] for x in "ABC" for r in rows]
+    else:
+        files = [r[x] for r in rows for x in "ABC"]
+    fill = [("fill%d.py" % i, "import os\n\n" + "\n".join(straight_function("fill%d" % i, 6, 10 * (i + 1))) + "\n") for i in range(fillers)]
+    return fill + files, meta
